@@ -532,6 +532,7 @@ public:
         int     ScaleModulators;
         bool    fullRangeBrightnessCC74;
         bool    enableAutoArpeggio;
+        bool    loopHooksOnly;
 
         double delay;
         double carry;
